@@ -310,7 +310,8 @@ def foreign_imports(ctx, pgpy):
         except Exception as ex:
             ev.append({'k': 'import', 'label': 'foreign one-pass signed message, ' + label, 'raised': True, 'before': before, 'after': {}, 'clause': 'C20.import', 'exc': repr(ex)[:100]})
     # ---- text given as str comes back as the same str (formats 't' and 'u' and the default), directly and after export / import
-    for text in ('plain ascii\n', 'h\xe9llo w\xf6rld\n', 'Gr\xfc\xdfe \u2014 \u2713 \U0001f600\n'):
+    for text in ('plain ascii\n', 'h\xe9llo w\xf6rld\n', 'Gr\xfc\xdfe \u2014 \u2713 \U0001f600\n', '\ufeffa byte-order mark is a character like any other\n\ufeffsecond line\n',
+                 'name;value\r\nmixed\rendings\n'):
         for fmt in (None, 't', 'u'):
             label = 'text %r format %s' % (text[:8], fmt)
             before = {'text': [ord(ch) for ch in text]}
